@@ -3,7 +3,7 @@
    the Rust serialize/deserialize functions on every run (Gen/ShardLayout.v). *)
 From Coq Require Import NArith Bool List Permutation Sorted.
 Import ListNotations.
-From XetModel Require Import Base.Codec Gen.ShardLayout Model.Merkle Model.Shard Proofs.CodecProofs Proofs.ShardProofs Proofs.SearchProofs Proofs.SetOpSortedProofs Proofs.ShardWholeProofs.
+From XetModel Require Import Base.Codec Gen.ShardLayout Model.Merkle Model.Shard Proofs.CodecProofs Proofs.ShardProofs Proofs.SearchProofs Proofs.SetOpSortedProofs Proofs.ShardWholeProofs Proofs.ShardSizeProofs.
 Open Scope N_scope.
 
 (* every fixed-width record codec round-trips (whatever field order the source uses, as long as
@@ -87,6 +87,13 @@ Example C09_whole_file_nonvacuous :
   load_footer bs = Some ft /\ get_file_info probe_exact bs ft (fi_hash wx_f2) = Found wx_f2 /\ get_file_info probe_exact bs ft (repeat 3 32%nat) = NotFound.
 Proof. exact whole_file_example. Qed.
 
+(* the size the in-memory shard accounts for is the length of what it serialises to, for every shard built by adding
+   well-formed records (byte-valued 32-byte hashes) to the empty shard, with replacements; the facts "an overwritten
+   record's size is subtracted" and "chunk-table entries are counted per occurrence" are regenerated from the source *)
+Theorem C09_size_accounting_exact : forall ops, Forall mop_ok ops ->
+  let m := fold_left mstep_add ops ms_empty in N.of_nat (length (serialize_from m)) = shard_file_size m.
+Proof. exact built_shard_size_exact. Qed.
+
 Print Assumptions C09_file_record_roundtrip.
 Print Assumptions C09_cas_record_roundtrip.
 Print Assumptions C09_file_section_scan.
@@ -96,3 +103,4 @@ Print Assumptions C09_footer_roundtrip.
 Print Assumptions C09_scans_list_all_records.
 Print Assumptions C09_stored_file_found.
 Print Assumptions C09_absent_file_not_found.
+Print Assumptions C09_size_accounting_exact.
